@@ -214,6 +214,20 @@ def _history(hist):
             pass
         if views() != before:
             return (f"a refused post-elaboration addition ({form} of a {kind} re-using {name!r}) still changed the module's views", len(hist), model)
+    # ... nor does the refused re-use of an attribute the module already holds (under another name) rename it
+    held = [(n, o) for n, o in m.namespace.items()][:2]
+    for n, o in held:
+        for form in ("setattr", "add_name_arg"):
+            try:
+                if form == "setattr":
+                    setattr(m, "late2", o)
+                else:
+                    m.add(o, name="late2")
+                return (f"storing a held attribute under a second name after elaboration accepted ({form})", len(hist), model)
+            except Exception:
+                pass
+            if o.name != n or views() != before:
+                return (f"a refused post-elaboration {form} of the attribute {n!r} under another name renamed it to {o.name!r}", len(hist), model)
     try:
         if h.to_proto(m).SerializeToString(deterministic=True) != bytes_before:
             return ("export changed after refused post-elaboration additions", len(hist), model)
@@ -250,6 +264,17 @@ def shadow_probe(h, mk, is_bundle=False):
                 ga = e
             if not (ga is sgn and o.get(nm) is sgn and o.namespace.get(nm) is sgn and o.signals.get(nm) is sgn):
                 return f"{how} of a signal under the name {nm!r} accepted, but get() / attribute access / views do not all return it (attribute access gives {str(ga)[:40]!r})"
+            # the name now denotes an HDL object: a non-HDL value must not take it over half-way
+            try:
+                setattr(o, nm, 5)
+            except Exception:
+                pass
+            try:
+                ga2 = getattr(o, nm)
+            except Exception as e:
+                ga2 = e
+            if not (ga2 is o.get(nm) and (ga2 is sgn or o.get(nm) is None)):
+                return f"after assigning a non-HDL value to the held name {nm!r}, attribute access gives {str(ga2)[:30]!r} but get() gives {str(o.get(nm))[:30]!r}"
     return None
 
 
